@@ -132,11 +132,21 @@ def _per_toks(p):
     return 'none' if p is None else '%d %d %d %d %d %d %s' % (p[0], p[1], p[2], p[3], p[4], p[5], _b(p[6]))
 
 
+_PERIOD_CACHE = {}
+
+
 def _period(p):
+    """The AnalysisPeriod objects are cached: the truth value of a period (`not period` in
+    is_daylight_saving_hour) enumerates all its time steps once per object (~20 ms)."""
     from ladybug.analysisperiod import AnalysisPeriod
     if p is None:
         return None
-    return AnalysisPeriod(p[0], p[1], p[2], p[3], p[4], p[5], 1, bool(p[6]))
+    p = tuple(p)
+    if p not in _PERIOD_CACHE:
+        if len(_PERIOD_CACHE) > 400:
+            _PERIOD_CACHE.clear()
+        _PERIOD_CACHE[p] = AnalysisPeriod(p[0], p[1], p[2], p[3], p[4], p[5], 1, bool(p[6]))
+    return _PERIOD_CACHE[p]
 
 
 def _sunpath(c, p=None):
@@ -225,14 +235,21 @@ PERIODS = [(3, 8, 2, 11, 1, 2), (3, 12, 2, 11, 5, 2), (3, 26, 1, 10, 29, 1), (10
 SPECIAL_DAYS = [(1, 1), (1, 2), (2, 28), (3, 1), (3, 20), (6, 20), (6, 21), (9, 22), (12, 21), (12, 30), (12, 31)]
 
 
+_POOL = {}
+
+
 def _rand_period(rng, leap):
+    """A fixed period, or one of a pool of 24 random periods of this run (see `_period`)."""
     r = rng.random()
     if r < 0.6:
         p = rng.choice(PERIODS)
+    elif len(_POOL.setdefault(id(rng), [])) >= 24:
+        p = rng.choice(_POOL[id(rng)])
     else:
         sm, em = rng.randrange(1, 13), rng.randrange(1, 13)
         p = (sm, rng.randrange(1, MDAYS[sm - 1] + 1), rng.randrange(24), em, rng.randrange(1, MDAYS[em - 1] + 1),
              rng.randrange(24))
+        _POOL[id(rng)].append(p)
     return p + (leap,)
 
 
@@ -345,7 +362,8 @@ def correspondence(ctx):
     cases = []
     plist = [pp + (leap,) for pp in PERIODS for leap in (False, True)]
     if ctx.quick:
-        plist = rng.sample(plist, 8) + [PERIODS[0] + (False,), PERIODS[3] + (False,), PERIODS[3] + (True,)]
+        plist = rng.sample(plist, 7) + [PERIODS[0] + (False,), PERIODS[3] + (False,), PERIODS[3] + (True,),
+                                        PERIODS[8] + (False,)]
     plist += [_rand_period(rng, rng.random() < 0.5) for _ in range(ctx.n(4, 40))]
     for p in plist:
         leap = p[6]
@@ -614,9 +632,545 @@ def _arc_correspondence(ctx):
                 break
 
 
-def oracle(ctx):
-    pass
+# ---------------------------------------------------------------------------------------------
+# independent ephemeris (The Astronomical Almanac, low precision), geometric altitude only
 
 
-def replay(op, inp):
+def _jd0(y, m, d):
+    """Julian day number at 0h UT of a Gregorian calendar date (Meeus, ch. 7)."""
+    if m <= 2:
+        y -= 1
+        m += 12
+    a = y // 100
+    return math.floor(365.25 * (y + 4716)) + math.floor(30.6001 * (m + 1)) + d + (2 - a + a // 4) - 1524.5
+
+
+def _almanac(jd):
+    """Right ascension, declination, Greenwich mean sidereal time (degrees)."""
+    n = jd - 2451545.0
+    mean_long = (280.460 + 0.9856474 * n) % 360.0
+    g = math.radians((357.528 + 0.9856003 * n) % 360.0)
+    lam = math.radians(mean_long + 1.915 * math.sin(g) + 0.020 * math.sin(2 * g))
+    eps = math.radians(23.439 - 0.0000004 * n)
+    ra = math.degrees(math.atan2(math.cos(eps) * math.sin(lam), math.cos(lam))) % 360.0
+    dec = math.degrees(math.asin(math.sin(eps) * math.sin(lam)))
+    gmst = (280.46061837 + 360.98564736629 * n) % 360.0
+    return ra, dec, gmst
+
+
+def _alt_from(lat, dec, ha_deg):
+    la, de, ha = math.radians(lat), math.radians(dec), math.radians(ha_deg)
+    s = math.sin(la) * math.sin(de) + math.cos(la) * math.cos(de) * math.cos(ha)
+    return math.degrees(math.asin(max(-1.0, min(1.0, s))))
+
+
+def _eff_tz(lon, tz):
+    return lon / 15.0 if tz is None else float(tz)
+
+
+def _true_alt(lat, lon, etz, leap, day_moy0, std_minutes, solar):
+    """Geometric altitude and declination at `std_minutes` minutes of STANDARD zone time (or of apparent solar
+    time when `solar`) after the midnight that starts the day whose first minute of the year is `day_moy0`."""
+    r = _ref(leap, day_moy0)
+    jd_mid = _jd0(r.year, r.month, r.day)
+    if solar:
+        jd = jd_mid + (std_minutes / 60.0 - lon / 15.0) / 24.0
+        _, dec, _ = _almanac(jd)
+        return _alt_from(lat, dec, 15.0 * (std_minutes / 60.0 - 12.0)), dec
+    jd = jd_mid + (std_minutes / 60.0 - etz) / 24.0
+    ra, dec, gmst = _almanac(jd)
+    ha = (gmst + lon - ra + 180.0) % 360.0 - 180.0
+    return _alt_from(lat, dec, ha), dec
+
+
+# ---------------------------------------------------------------------------------------------
+# property oracle (written from the statement; the model is not used)
+
+
+def _window_hours(p, leap):
+    """The set of hours of the year inside the daylight-saving period: walk hour by hour from the start
+    moment until the end moment is reached, passing the year end if need be."""
+    n = _ydays(leap) * 24
+    st = _moy_of(leap, p[0], p[1], p[2]) // 60
+    en = _moy_of(leap, p[3], p[4], p[5]) // 60
+    out = set()
+    h = st
+    while h != en:
+        out.add(h)
+        h = (h + 1) % n
+    return out
+
+
+_WIN = {}
+
+
+def _in_window(p, leap, moy):
+    if p is None:
+        return False
+    key = (tuple(p[:6]), leap)
+    if key not in _WIN:
+        if len(_WIN) > 200:
+            _WIN.clear()
+        _WIN[key] = _window_hours(p, leap)
+    return (moy // 60) in _WIN[key]
+
+
+def _kind(p):
+    if p is None:
+        return 'none'
+    a, b = tuple(p[:3]), tuple(p[3:6])
+    return 'wrap' if a > b else 'empty' if a == b else 'north'
+
+
+def _cfg_of(inp):
+    return (inp['lat'], inp['lon'], inp.get('tz'), inp.get('north', 0.0), bool(inp.get('leap')))
+
+
+def _per_of(inp):
+    p = inp.get('period')
+    return None if p is None else tuple(p[:6]) + (bool(inp.get('leap')),)
+
+
+def _check_dst_window(inp):
+    """is_daylight_saving_hour(dt) <=> dt in the cyclic window."""
+    from ladybug.dt import DateTime
+    leap = bool(inp.get('leap'))
+    p = _per_of(inp)
+    sp = _sunpath((0.0, 0.0, 0.0, 0.0, leap), p)
+    bad = []
+    for moy in inp['moys']:
+        r = _ref(leap, moy)
+        got = bool(sp.is_daylight_saving_hour(DateTime(r.month, r.day, r.hour, r.minute, leap)))
+        want = _in_window(p, leap, moy)
+        if got != want:
+            bad.append((moy, r.strftime('%d %b %H:%M'), want, got))
+    if bad:
+        m = bad[0]
+        return {'required': '%s: daylight saving = %s (period %r, %d of %d sampled minutes wrong)'
+                % (m[1], m[2], p, len(bad), len(inp['moys'])),
+                'observed': 'is_daylight_saving_hour = %s' % m[3],
+                'sig': {'period': _kind(p), 'expected': m[2]}}
     return None
+
+
+def _circ(a, b):
+    return abs((a - b + 180.0) % 360.0 - 180.0)
+
+
+def _check_dst_shift(inp):
+    """Inside the window the sun is the sun of one hour earlier standard time and is flagged; outside it is
+    the sun of the Sunpath without a period, unflagged."""
+    from ladybug.dt import DateTime
+    c, p = _cfg_of(inp), _per_of(inp)
+    leap, solar = c[4], bool(inp.get('solar'))
+    n = _ymin(leap)
+    sp, sp0 = _sunpath(c, p), _sunpath(c, None)
+    for moy in inp['moys']:
+        r = _ref(leap, moy)
+        s = sp.calculate_sun_from_date_time(DateTime(r.month, r.day, r.hour, r.minute, leap), solar)
+        inside = _in_window(p, leap, moy)
+        sig = {'period': _kind(p), 'inside': inside, 'solar': solar}
+        when = r.strftime('%d %b %H:%M')
+        if bool(s.is_daylight_saving) != inside:
+            return {'required': '%s: is_daylight_saving = %s' % (when, inside),
+                    'observed': s.is_daylight_saving, 'sig': dict(sig, what='flag')}
+        d = s.datetime
+        if (d.month, d.day, d.hour, d.minute) != (r.month, r.day, r.hour, r.minute):
+            return {'required': 'the sun keeps its clock date-time %s' % when, 'observed': str(d),
+                    'sig': dict(sig, what='datetime')}
+        if not inside:
+            s0 = sp0.calculate_sun_from_date_time(DateTime(r.month, r.day, r.hour, r.minute, leap), solar)
+            if (s.altitude, s.azimuth) != (s0.altitude, s0.azimuth):
+                return {'required': '%s outside the period: the sun of standard time (%r, %r)'
+                        % (when, s0.altitude, s0.azimuth), 'observed': (s.altitude, s.azimuth),
+                        'sig': dict(sig, what='outside-changed')}
+            continue
+        r1 = _ref(leap, (moy - 60) % n)
+        s1 = sp0.calculate_sun_from_date_time(DateTime(r1.month, r1.day, r1.hour, r1.minute, leap), solar)
+        tol = 0.1 if moy < 60 else 0.05        # the first hour of the year is compared with the last of the same year
+        sep = _circ(s.azimuth, s1.azimuth) * math.cos(math.radians(s1.altitude))
+        if abs(s.altitude - s1.altitude) > 2 * tol or sep > 2 * tol:
+            return {'required': '%s inside the period: the sun of %s standard time (altitude %.4f azimuth %.4f)'
+                    % (when, r1.strftime('%d %b %H:%M'), s1.altitude, s1.azimuth),
+                    'observed': 'altitude %.4f azimuth %.4f' % (s.altitude, s.azimuth),
+                    'sig': dict(sig, what='not-one-hour-earlier')}
+    return None
+
+
+def _rs(inp):
+    c, p = _cfg_of(inp), _per_of(inp)
+    sp = _sunpath(c, p)
+    return c, p, sp, sp.calculate_sunrise_sunset(inp['month'], inp['day'], inp['dep'], bool(inp.get('solar')))
+
+
+def _offset_minutes(leap, day0, d):
+    """Minutes of `d` after the midnight starting the day with first minute `day0`, for a date-time on the
+    day before, the day itself or the day after (year cyclic); None for any other day."""
+    n = _ymin(leap)
+    m = _moy_of(leap, d.month, d.day, d.hour, d.minute)
+    for off in (-1440, 0, 1440):
+        lo = (day0 + off) % n
+        if lo <= m < lo + 1440:
+            return off + (m - lo)
+    return None
+
+
+def _check_riseset(inp):
+    """Order, calendar days, polar days, altitude at the reported sunrise/sunset, noon is the maximum."""
+    leap = bool(inp.get('leap'))
+    solar = bool(inp.get('solar'))
+    dep = inp['dep']
+    sig = {'solar': solar, 'dst': _kind(_per_of(inp)) != 'none'}
+    try:
+        c, p, sp, r = _rs(inp)
+    except Exception as e:
+        return {'required': 'sunrise/noon/sunset of %d/%d' % (inp['month'], inp['day']),
+                'observed': 'raises %s: %s' % (type(e).__name__, str(e)[:100]),
+                'sig': dict(sig, what='exception', exception=type(e).__name__,
+                            day='year-end' if (inp['month'], inp['day']) in ((1, 1), (12, 31)) else 'other')}
+    lat, lon = c[0], c[1]
+    etz = _eff_tz(lon, c[2])
+    day0 = _moy_of(leap, inp['month'], inp['day'])
+    noon_dst = _in_window(p, leap, day0 + 720)
+
+    def std(off, d):
+        """reported clock minutes -> standard minutes after the day's midnight (None: other side of a switch)"""
+        m = _moy_of(leap, d.month, d.day, d.hour, d.minute)
+        if _in_window(p, leap, m) != noon_dst:
+            return None
+        return off - 60 if noon_dst else off
+
+    noon = r['noon']
+    if (noon.month, noon.day) != (inp['month'], inp['day']):
+        return {'required': 'noon on the day itself', 'observed': str(noon), 'sig': dict(sig, what='noon-day')}
+    noon_off = noon.hour * 60 + noon.minute
+    if (r['sunrise'] is None) != (r['sunset'] is None):
+        return {'required': 'sunrise and sunset both reported or both None', 'observed': str(r),
+                'sig': dict(sig, what='one-sided')}
+    # the day's true altitudes, minute by minute in standard time (independent ephemeris)
+    alts = None
+    nstd = std(noon_off, noon)
+    if nstd is not None:
+        alts = [_true_alt(lat, lon, etz, leap, day0, m, solar)[0] for m in range(0, 1440, 2)]
+        hi = max(alts)
+        a_noon, dec_noon = _true_alt(lat, lon, etz, leap, day0, nstd, solar)
+        decs = [_true_alt(lat, lon, etz, leap, day0, m, solar)[1] for m in (0, 1439)]
+        drift = abs(decs[1] - decs[0])
+        culm = 90.0 - abs(lat - dec_noon)
+        # the upper culmination for the declination of that moment; over the day the altitude can exceed it
+        # only by the drift of the declination (at the poles the altitude IS the declination)
+        res = culm - _alt_from(lat, dec_noon, 0.25)      # what one minute of hour angle costs at the top
+        ok = a_noon >= culm - 0.01 - res and a_noon >= hi - 0.01 - res - drift
+        _SUB('noon is the highest sun of the day (true altitude within 0.01 deg + one minute of motion of the upper '
+             'culmination 90 - |lat - dec|, and of the day\'s maximum up to the declination drift of the day)', ok)
+        if not ok:
+            return {'required': 'reported noon %s is the highest sun of the day (culmination %.4f, day maximum %.4f, '
+                    'declination drift %.4f)' % (noon, culm, hi, drift),
+                    'observed': 'true altitude at reported noon %.4f' % a_noon, 'sig': dict(sig, what='noon-not-max')}
+        if abs(lat) <= 50.0:
+            k = alts.index(hi) * 2
+            fine = [(_true_alt(lat, lon, etz, leap, day0, m / 4.0, solar)[0], m / 4.0)
+                    for m in range(max(0, (k - 3) * 4), min(1440, k + 3) * 4)]
+            tmax = max(fine)[1]
+            ok = abs(tmax - nstd) <= 2.0
+            _SUB('reported noon within 2 minutes of the culmination (|lat| <= 50)', ok)
+            if not ok:
+                return {'required': 'noon within 2 min of the culmination at %.2f min (standard time)' % tmax,
+                        'observed': 'reported noon %s = %d min' % (noon, nstd), 'sig': dict(sig, what='noon-time')}
+    if r['sunrise'] is None:
+        if alts is not None:
+            lo, hi = min(alts) + dep, max(alts) + dep
+            ok = not (lo < -0.3 and hi > 0.3)
+            _SUB('no sunrise/sunset reported => the sun does not cross -depression that day (0.3 deg)', ok)
+            if not ok:
+                return {'required': 'a sunrise and a sunset (true altitude + depression ranges over [%.3f, %.3f])'
+                        % (lo, hi), 'observed': 'only noon reported', 'sig': dict(sig, what='polar-but-crosses')}
+        return None
+    offs = {}
+    for k in ('sunrise', 'sunset'):
+        o = _offset_minutes(leap, day0, r[k])
+        if o is None or (k == 'sunrise' and o >= 1440) or (k == 'sunset' and o < 0):
+            return {'required': '%s on %d/%d or the day %s' % (k, inp['month'], inp['day'],
+                                                              'before' if k == 'sunrise' else 'after'),
+                    'observed': str(r[k]), 'sig': dict(sig, what=k + '-day',
+                                                      day='year-end' if (inp['month'], inp['day']) in ((1, 1), (12, 31)) else 'other')}
+        offs[k] = o
+    if not (offs['sunrise'] <= noon_off <= offs['sunset']):
+        return {'required': 'sunrise <= noon <= sunset', 'observed': '%s | %s | %s' % (r['sunrise'], noon, r['sunset']),
+                'sig': dict(sig, what='order',
+                            day='year-end' if (inp['month'], inp['day']) in ((1, 1), (12, 31)) else 'other')}
+    if alts is not None:
+        lo, hi = min(alts) + dep, max(alts) + dep
+        ok = lo < 0.3 and hi > -0.3
+        _SUB('sunrise/sunset reported => the sun reaches -depression that day (0.3 deg)', ok)
+        if not ok:
+            return {'required': 'only noon (true altitude + depression ranges over [%.3f, %.3f])' % (lo, hi),
+                    'observed': str(r), 'sig': dict(sig, what='rise-but-no-crossing')}
+    _, dec_ref = _true_alt(lat, lon, etz, leap, day0, 720 - (60 if noon_dst else 0), solar)
+    for k in ('sunrise', 'sunset'):
+        t = std(offs[k], r[k])
+        if t is None:
+            _COUNT('oracle:skipped_across_switch')
+            continue
+        g = []
+        for dt in (-1.0, 0.0, 1.0):
+            a, dec = _true_alt(lat, lon, etz, leap, day0, t + dt, solar)
+            g.append(a + dep)
+        slack = 0.04 + 1.1 * abs(dec - dec_ref)
+        ok = min(g) - slack <= 0.0 <= max(g) + slack
+        _SUB('true altitude at the reported %s = -depression within one minute of motion' % k, ok)
+        if not ok:
+            return {'required': 'true altitude -%.4f within one minute of %s %s (slack %.3f)' % (dep, k, r[k], slack),
+                    'observed': 'true altitude %.4f (%.4f .. %.4f over +-1 min)' % (g[1] - dep, min(g) - dep, max(g) - dep),
+                    'sig': dict(sig, what=k + '-altitude')}
+    return None
+
+
+def _check_riseset_dt(inp):
+    """calculate_sunrise_sunset_from_datetime(any time of the day) names the same day as (month, day)."""
+    from ladybug.dt import DateTime
+    c, p = _cfg_of(inp), _per_of(inp)
+    sp = _sunpath(c, p)
+    a = sp.calculate_sunrise_sunset(inp['month'], inp['day'], inp['dep'], bool(inp.get('solar')))
+    b = sp.calculate_sunrise_sunset_from_datetime(DateTime(inp['month'], inp['day'], 12, 0, c[4]), inp['dep'],
+                                                  bool(inp.get('solar')))
+    if a != b:
+        return {'required': str(a), 'observed': str(b), 'sig': {'what': 'from_datetime-differs'}}
+    return None
+
+
+def _sun_tuple(s):
+    d = s.datetime
+    return (d.month, d.day, d.hour, d.minute, s.altitude, s.azimuth, bool(s.is_daylight_saving), bool(s.is_solar_time))
+
+
+def _check_analemma(inp):
+    """Every sun of an analemma is the sun the position calculation gives for its own date-time, at the
+    requested time of day, in a requested month, on an existing day; no date twice; the 21st when one step."""
+    from ladybug.dt import DateTime, Time
+    c, p = _cfg_of(inp), _per_of(inp)
+    sp = _sunpath(c, p)
+    solar, daytime = bool(inp.get('solar')), bool(inp.get('daytime_only'))
+    hour, minute = inp['hour'], inp['minute']
+    suns = sp.analemma_suns(Time(hour, minute), daytime, solar, inp['start'], inp['end'], inp['steps'])
+    full = sp.analemma_suns(Time(hour, minute), False, solar, inp['start'], inp['end'], inp['steps'])
+    sig = {'steps': 'one' if inp['steps'] == 1 else 'many', 'daytime_only': daytime}
+    seen = set()
+    for s in full:
+        d = s.datetime
+        if (d.hour, d.minute) != (hour, minute) or not (inp['start'] <= d.month <= inp['end']):
+            return {'required': 'suns of %02d:%02d in months %d..%d' % (hour, minute, inp['start'], inp['end']),
+                    'observed': str(d), 'sig': dict(sig, what='date')}
+        if inp['steps'] == 1 and d.day != 21:
+            return {'required': 'the 21st', 'observed': str(d), 'sig': dict(sig, what='not-21st')}
+        if (d.month, d.day) in seen:
+            return {'required': 'each date once', 'observed': str(d), 'sig': dict(sig, what='duplicate')}
+        seen.add((d.month, d.day))
+        again = sp.calculate_sun_from_date_time(DateTime(d.month, d.day, d.hour, d.minute, d.leap_year), solar)
+        if _sun_tuple(again) != _sun_tuple(s):
+            return {'required': 'the sun of %s: %r' % (d, _sun_tuple(again)), 'observed': _sun_tuple(s),
+                    'sig': dict(sig, what='not-the-position')}
+    if inp['steps'] == 1 and len(full) != max(0, inp['end'] - inp['start'] + 1):
+        return {'required': '%d suns' % (inp['end'] - inp['start'] + 1), 'observed': len(full), 'sig': dict(sig, what='count')}
+    want = [_sun_tuple(s) for s in full if s.is_during_day] if daytime else [_sun_tuple(s) for s in full]
+    if [_sun_tuple(s) for s in suns] != want:
+        return {'required': 'the daytime suns of the full analemma', 'observed': '%d of %d' % (len(suns), len(full)),
+                'sig': dict(sig, what='daytime-filter')}
+    if inp.get('hourly'):
+        ll = sp.hourly_analemma_suns(daytime, solar, inp['start'], inp['end'], inp['steps'])
+        if len(ll) != 24:
+            return {'required': '24 analemmas', 'observed': len(ll), 'sig': dict(sig, what='hourly-count')}
+        for hr, l in enumerate(ll):
+            one = sp.analemma_suns(Time(hr, 0), daytime, solar, inp['start'], inp['end'], inp['steps'])
+            if [_sun_tuple(s) for s in l] != [_sun_tuple(s) for s in one]:
+                return {'required': 'hourly analemma %d = analemma_suns(Time(%d))' % (hr, hr), 'observed': 'differs',
+                        'sig': dict(sig, what='hourly')}
+    return None
+
+
+def _check_dayarc(inp):
+    """The day arc runs from the sun of the reported sunrise through the sun of the reported noon to the sun
+    of the reported sunset (positions of calculate_sun_from_date_time)."""
+    c, p = _cfg_of(inp), _per_of(inp)
+    sp = _sunpath(c, p)
+    dep, dto = inp['dep'], bool(inp.get('daytime_only', True))
+    r = sp.calculate_sunrise_sunset(inp['month'], inp['day'], dep)
+    arc = sp.day_arc3d(inp['month'], inp['day'], depression=dep, daytime_only=dto)
+    sig = {'polar': r['sunrise'] is None}
+    noon = sp.calculate_sun_from_date_time(r['noon'])
+    if r['sunrise'] is None:
+        if dto and noon.altitude < 0:
+            if arc is not None:
+                return {'required': 'None (sun below the horizon all day)', 'observed': 'an arc', 'sig': dict(sig, what='night-arc')}
+            return None
+        pts = [sp.calculate_sun(inp['month'], inp['day'], 6), noon, sp.calculate_sun(inp['month'], inp['day'], 18)]
+        kind = 'polar'
+    else:
+        pts = [sp.calculate_sun_from_date_time(r['sunrise']), noon, sp.calculate_sun_from_date_time(r['sunset'])]
+        kind = 'arc'
+    pp = []
+    for s in pts:
+        q = s.position_3d()
+        pp.append((q.x, q.y, q.z))
+    why = _arc_vs_points(arc, kind, pp)
+    if why:
+        return {'required': 'the %s through the suns of %s' % (kind, [str(s.datetime) for s in pts]), 'observed': why,
+                'sig': dict(sig, what='arc')}
+    return None
+
+
+_SUBCTX = [None]
+
+
+def _SUB(name, ok):
+    if _SUBCTX[0] is not None:
+        _SUBCTX[0].subclaim(name, ok)
+
+
+def _COUNT(key):
+    if _SUBCTX[0] is not None:
+        _SUBCTX[0].count(key)
+
+
+CHECKS = {'dst_window': _check_dst_window, 'dst_shift': _check_dst_shift, 'riseset': _check_riseset,
+          'riseset_dt': _check_riseset_dt, 'analemma': _check_analemma, 'dayarc': _check_dayarc}
+
+
+def check_case(op, inp):
+    if op not in CHECKS:
+        raise ValueError('unknown op ' + op)
+    return CHECKS[op](inp)
+
+
+replay = check_case
+
+NYC = {'lat': 40.72, 'lon': -74.02, 'tz': -5.0, 'leap': False}
+CORPUS = [
+    # the tested NYC period and a southern (year-wrapping) one: sunrise/noon/sunset inside the period
+    ('riseset', dict(NYC, period=[3, 8, 2, 11, 1, 2], month=6, day=21, dep=0.5334)),
+    ('riseset', dict(NYC, period=[3, 8, 2, 11, 1, 2], month=12, day=21, dep=0.833)),
+    ('riseset', {'lat': -33.87, 'lon': 151.22, 'tz': 10.0, 'leap': False, 'period': [10, 1, 2, 4, 1, 3],
+                 'month': 12, 'day': 21, 'dep': 0.8333}),
+    ('riseset', {'lat': -33.87, 'lon': 151.22, 'tz': 10.0, 'leap': False, 'month': 6, 'day': 21, 'dep': 0.8333}),
+    # before-midnight sunrise on 1 Jan, after-midnight sunset on 31 Dec (year ends), both leap flags
+    ('riseset', {'lat': -66.0, 'lon': 0.0, 'tz': -2.0, 'leap': False, 'month': 1, 'day': 1, 'dep': 0.5334}),
+    ('riseset', {'lat': -66.0, 'lon': 0.0, 'tz': 2.0, 'leap': False, 'month': 12, 'day': 31, 'dep': 0.5334}),
+    ('riseset', {'lat': -66.0, 'lon': 0.0, 'tz': 2.0, 'leap': True, 'month': 12, 'day': 31, 'dep': 0.5334}),
+    ('riseset', {'lat': -49.43473904646526, 'lon': 15.396278108080821, 'tz': 3.0, 'leap': False, 'month': 11,
+                 'day': 16, 'dep': 18.0}),                     # sunset rounds to exactly 24:00
+    ('riseset', {'lat': -68.06703350366472, 'lon': -123.07070128611672, 'tz': -10.189618135464936, 'leap': False,
+                 'month': 11, 'day': 11, 'dep': 0.833}),      # sunrise rounds to exactly 00:00
+    ('riseset', {'lat': 65.63, 'lon': -16.12, 'tz': 0.0, 'leap': False, 'month': 6, 'day': 21, 'dep': 0.5334}),
+    ('riseset', {'lat': 65.63, 'lon': -16.12, 'tz': -2.0, 'leap': False, 'month': 6, 'day': 21, 'dep': 0.5334}),
+    ('riseset', {'lat': 78.0, 'lon': 15.0, 'tz': 1.0, 'leap': False, 'month': 6, 'day': 21, 'dep': 0.5334}),
+    ('riseset', {'lat': 78.0, 'lon': 15.0, 'tz': 1.0, 'leap': False, 'month': 12, 'day': 21, 'dep': 6.0}),
+    ('riseset', {'lat': 0.0, 'lon': 0.0, 'tz': None, 'leap': True, 'month': 2, 'day': 29, 'dep': 0.0, 'solar': True}),
+    ('dst_window', {'leap': False, 'period': [10, 1, 2, 4, 1, 3], 'moys': list(range(0, 525600, 60))}),
+    ('dst_window', {'leap': True, 'period': [3, 8, 2, 11, 1, 2], 'moys': list(range(0, 527040, 60))}),
+    ('dst_shift', dict(NYC, period=[3, 8, 2, 11, 1, 2], moys=[246240, 246240 - 720, 511920, 95519, 95520, 437879, 437880])),
+    ('dst_shift', {'lat': -33.87, 'lon': 151.22, 'tz': 10.0, 'leap': False, 'period': [10, 1, 2, 4, 1, 3],
+                   'moys': [0, 59, 60, 720, 525599, 246240, 129719, 129720, 393239, 393240]}),
+    ('analemma', dict(NYC, start=1, end=12, steps=1, hour=12, minute=0, hourly=True)),
+    ('analemma', dict(NYC, period=[3, 8, 2, 11, 1, 2], start=3, end=11, steps=4, hour=7, minute=30, daytime_only=True)),
+    ('dayarc', dict(NYC, month=6, day=21, dep=0.5334)),
+    ('dayarc', {'lat': 65.63, 'lon': -16.12, 'tz': -2.0, 'leap': False, 'month': 6, 'day': 21, 'dep': 0.5334}),
+    ('dayarc', {'lat': 78.0, 'lon': 15.0, 'tz': 1.0, 'leap': False, 'month': 6, 'day': 21, 'dep': 0.5334}),
+    ('dayarc', dict(NYC, period=[3, 8, 2, 11, 1, 2], month=6, day=21, dep=0.5334)),
+]
+
+
+def _oracle_tz(rng, lon):
+    base = lon / 15.0
+    r = rng.random()
+    if r < 0.15:
+        return None
+    if r < 0.6:
+        tz = float(round(base))
+    elif r < 0.8:
+        tz = float(round(base) + rng.choice([-1, 1]))
+    else:
+        tz = base + rng.uniform(-1.9, 1.9)
+    tz = max(-12.0, min(14.0, tz))
+    return tz if abs(tz - base) <= 2.0 else max(-12.0, min(14.0, float(round(base))))
+
+
+def _oracle_cases(ctx):
+    rng = ctx.rng
+    for op, inp in CORPUS:
+        yield op, inp
+    mult = 5 if ctx.searching else 1
+    # sunrise / noon / sunset
+    for i in range(ctx.n(260, 4000) * mult):
+        lat = rng.choice(LATS[1:-1]) if rng.random() < 0.4 else rng.uniform(-89.0, 89.0)
+        if rng.random() < 0.2:
+            lat = rng.choice([-1, 1]) * rng.uniform(55.0, 70.0)
+        lon = rng.choice(LONS) if rng.random() < 0.3 else rng.uniform(-180.0, 180.0)
+        leap = rng.random() < 0.3
+        inp = {'lat': lat, 'lon': lon, 'tz': _oracle_tz(rng, lon), 'leap': leap,
+               'dep': rng.choice(DEPS) if rng.random() < 0.8 else rng.uniform(0.0, 18.0)}
+        inp['month'], inp['day'] = _rand_day(rng, leap)
+        if rng.random() < 0.35:
+            inp['period'] = list(rng.choice(PERIODS[:6] if rng.random() < 0.8 else PERIODS))
+        if rng.random() < 0.15:
+            inp['solar'] = True
+        ctx.count('oracle_cfg:lat_' + ('polar' if abs(lat) > 66.56 else 'subpolar' if abs(lat) > 55 else 'mid_low'))
+        ctx.count('oracle_cfg:' + ('dst_period' if 'period' in inp else 'no_period'))
+        yield 'riseset', inp
+        if i % 10 == 0:
+            yield 'riseset_dt', inp
+    # daylight-saving window: every hour of the year for the fixed periods (thorough) / a stride (quick)
+    for k, pp in enumerate(PERIODS):
+        for leap in (False, True):
+            n = _ymin(leap)
+            if ctx.quick and not ctx.searching:
+                st = rng.randrange(60 * 5)
+                moys = list(range(st, n, 60 * 5)) + _dst_boundary_moys(pp, leap)
+            else:
+                moys = list(range(0, n, 60)) + _dst_boundary_moys(pp, leap)
+            ctx.count('oracle_dst_period:' + _kind(pp))
+            yield 'dst_window', {'leap': leap, 'period': list(pp), 'moys': moys}
+    for _ in range(ctx.n(6, 60)):
+        leap = rng.random() < 0.5
+        pp = _rand_period(rng, leap)[:6]
+        n = _ymin(leap)
+        yield 'dst_window', {'leap': leap, 'period': list(pp),
+                             'moys': list(range(rng.randrange(180), n, 180)) + _dst_boundary_moys(pp, leap)}
+    # the shift
+    for _ in range(ctx.n(120, 1500) * mult):
+        lat, lon = rng.uniform(-80.0, 80.0), rng.uniform(-180.0, 180.0)
+        leap = rng.random() < 0.3
+        pp = rng.choice(PERIODS)
+        n = _ymin(leap)
+        moys = [rng.randrange(n) for _ in range(12)] + rng.sample(_dst_boundary_moys(pp, leap), 6) + \
+               [rng.randrange(_ydays(leap)) * 1440 + rng.randrange(60) for _ in range(3)]
+        yield 'dst_shift', {'lat': lat, 'lon': lon, 'tz': _oracle_tz(rng, lon), 'leap': leap, 'period': list(pp),
+                            'moys': moys, 'solar': rng.random() < 0.2}
+    # derived suns
+    for i in range(ctx.n(40, 500) * mult):
+        lat, lon = rng.uniform(-89.0, 89.0), rng.uniform(-180.0, 180.0)
+        inp = {'lat': lat, 'lon': lon, 'tz': _oracle_tz(rng, lon), 'leap': rng.random() < 0.3,
+               'start': rng.choice([1, 1, rng.randrange(1, 13)]), 'end': rng.choice([12, 12, rng.randrange(1, 13)]),
+               'steps': rng.choice([1, 1, 2, 3, 4, 7, 10, 15, 28]), 'hour': rng.randrange(24),
+               'minute': rng.choice([0, 0, 30, rng.randrange(60)]), 'daytime_only': rng.random() < 0.4,
+               'solar': rng.random() < 0.2, 'hourly': i % 8 == 0}
+        if rng.random() < 0.4:
+            inp['period'] = list(rng.choice(PERIODS))
+        yield 'analemma', inp
+    for _ in range(ctx.n(150, 2000) * mult):
+        lat = rng.choice(LATS[1:-1]) if rng.random() < 0.4 else rng.uniform(-89.0, 89.0)
+        lon = rng.uniform(-180.0, 180.0)
+        leap = rng.random() < 0.3
+        inp = {'lat': lat, 'lon': lon, 'tz': _oracle_tz(rng, lon), 'leap': leap, 'dep': rng.choice(DEPS),
+               'daytime_only': rng.random() < 0.6}
+        inp['month'], inp['day'] = _rand_day(rng, leap)
+        if rng.random() < 0.3:
+            inp['period'] = list(rng.choice(PERIODS[:6]))
+        yield 'dayarc', inp
+
+
+def oracle(ctx):
+    _SUBCTX[0] = ctx
+    try:
+        run_oracle_cases(ctx, _oracle_cases(ctx), check_case)
+    finally:
+        _SUBCTX[0] = None
